@@ -74,7 +74,11 @@ func (e *ExecutorEngine) StartOperation(ctx context.Context, id string, payload 
 
 // StopSubscription will stop an active subscription.
 func (e *ExecutorEngine) StopSubscription(id string, eventHandler EventHandler) error {
-	e.subCancellations.Cancel(id)
+	if !e.subCancellations.Cancel(id) {
+		// not an active subscription (never started, or already terminated): there is nothing
+		// to complete, and the client must not be sent a message for an id it does not know
+		return nil
+	}
 	eventHandler.Emit(EventTypeOnSubscriptionCompleted, id, nil, nil)
 	return nil
 }
